@@ -81,6 +81,34 @@ func (p *Program) info(fn *ssa.Function) *funcInfo {
 	}
 	if pkg != nil {
 		fi.allowed = p.AllowPkgs[pkg.Pkg.Path()]
+		if !fi.allowed {
+			// single source files of otherwise intrinsic packages (fmt's scanner)
+			if files := AllowFiles[pkg.Pkg.Path()]; files != nil {
+				top := fn
+				for top.Parent() != nil {
+					top = top.Parent()
+				}
+				pos := fn.Pos()
+				if !pos.IsValid() {
+					pos = top.Pos()
+				}
+				if !pos.IsValid() && top.Origin() != nil {
+					pos = top.Origin().Pos()
+				}
+				if !pos.IsValid() && fn.Name() == "init" && fn.Synthetic != "" {
+					fi.allowed = true // the package initialiser
+				}
+				if AllowFuncs[fi.name] || strings.HasPrefix(fi.name, "(*fmt.buffer).") {
+					fi.allowed = true
+				} else if pos.IsValid() {
+					f := p.Fset.Position(pos).Filename
+					if i := strings.LastIndexByte(f, '/'); i >= 0 {
+						f = f[i+1:]
+					}
+					fi.allowed = files[f]
+				}
+			}
+		}
 	} else {
 		// synthetic wrappers / thunks / bound methods: judged by their callee
 		fi.allowed = true
